@@ -170,10 +170,10 @@ def FULL_ENTRY_SHIFT : Nat := 57
 /-- nomt/src/bitbox/meta_map.rs:62: `MetaMap::page_index` -/
 def META_BYTES_PER_PAGE : Nat := 4096
 
-/-- nomt/src/bitbox/mod.rs:677: `allocate_bucket`: gives up when its counter reaches this value -/
+/-- nomt/src/bitbox/mod.rs:684: `allocate_bucket`: gives up when its counter reaches this value -/
 def ALLOCATE_BUCKET_ATTEMPTS : Nat := 10000
 
-/-- nomt/src/bitbox/mod.rs:784: `ProbeSequence::next`: `step > 2 * len` => `Exhausted` -/
+/-- nomt/src/bitbox/mod.rs:791: `ProbeSequence::next`: `step > 2 * len` => `Exhausted` -/
 def PROBE_BOUND_FACTOR : Nat := 2
 
 end Nomt.Gen
